@@ -341,6 +341,24 @@ def execute(chunk):
                                             for a, b in ((0, cut), (cut, cut + 1), (cut + 1, nk)) if b > a])
                     if (np.abs(parts - base).max(axis=1) > tolb).any():
                         res['failures'].append({'signature': 'C01:batch-dependent', 'detail': 'prediction of a row changes when the batch is split'})
+                    # one caller-owned buffer refilled in place between two calls (the same tensor / ndarray object with other
+                    # rows in it): the value of a row is a function of that row, not of what the object held before
+                    half = nk // 2
+                    call = (lambda a: m.predict_proba(a)) if is_class else (lambda a: m.predict(a))
+                    for kind_buf in ('tensor', 'ndarray'):
+                        if kind_buf == 'tensor':
+                            buf = Qk[:half].clone()
+                            call(buf)
+                            buf.copy_(Qk[half:2 * half])
+                        else:
+                            buf = Qk[:half].numpy().copy()
+                            call(buf)
+                            buf[:] = Qk[half:2 * half].numpy()
+                        got = call(buf).astype(np.float64)
+                        if (np.abs(got - base[half:2 * half]).max(axis=1) > tolb[half:2 * half]).any():
+                            res['failures'].append({'signature': 'C01:reused-buffer',
+                                                    'detail': f'rows predicted through a {kind_buf} buffer that held other rows in an earlier call differ from the '
+                                                              f'same rows predicted from a fresh {kind_buf} by {np.abs(got - base[half:2 * half]).max():.3e}'})
                     # internal batch size of the leaf predictor
                     tj, leaves, nodes, leaf, dec = per_tree[0]
                     lf = None
